@@ -172,6 +172,60 @@ def build_alias_namesake(m: Dict[str, Any], **db_kwargs):
     return db, m
 
 
+def build_col_moved(m: Dict[str, Any], **db_kwargs):
+    """The same final content reached by MOVING a column: a column that carries one end of a reference (the last column of its
+    table, named in no index) first lives in another table; the database is rendered (whatever a reference remembers about
+    its end points is remembered now); then the column is moved home through Table.delete_column / add_column and lands
+    in its place.  Returns the database (m's content) or a plain build if no column of m qualifies."""
+    import copy
+    for r in m['refs']:
+        for side in ('1', '2'):
+            t, cs = r['t' + side], r['c' + side]
+            if not t or len(cs) != 1:
+                continue
+            A = m['tables'][t - 1]
+            c = cs[0]
+            if c != len(A['cols']) or len(A['cols']) < 2:
+                continue
+            if any(sj.get('k') == 'col' and sj.get('i') == c for x in A['idxs'] for sj in x['subj']):
+                continue
+            name = A['cols'][c - 1]['name']
+            hosts = [b for b, B in enumerate(m['tables'], 1) if b != t and all(col['name'] != name for col in B['cols'])
+                     and not any(q is not r and ((q['t1'] == b) or (q['t2'] == b)) and q['type'] == r['type'] for q in m['refs'])]
+            if not hosts:
+                continue
+            b = hosts[0]
+            old = copy.deepcopy(m)
+            col = old['tables'][t - 1]['cols'].pop()
+            old['tables'][b - 1]['cols'].append(col)
+            pos = len(old['tables'][b - 1]['cols'])
+            for q in old['refs']:
+                for sd in ('1', '2'):
+                    if q['t' + sd] == t and c in q['c' + sd]:
+                        if len(q['c' + sd]) != 1:
+                            break
+                        q['t' + sd], q['c' + sd] = b, [pos]
+                else:
+                    continue
+                break
+            else:
+                try:
+                    db = build(old, **db_kwargs)
+                except Exception:
+                    continue                      # (the detour made two references equal, or the like: try another column)
+                for kind in ('sql', 'dbml'):
+                    try:
+                        getattr(db, kind)
+                        for ref in db.refs:
+                            getattr(ref, kind)
+                    except Exception:
+                        pass
+                moved = db.tables[b - 1].delete_column(db.tables[b - 1].columns[-1])
+                db.tables[t - 1].add_column(moved)
+                return db
+    return build(m, **db_kwargs)
+
+
 def build_morphed(m: Dict[str, Any], aspects=('names', 'types', 'settings', 'refs'), **db_kwargs):
     """The same final content reached the long way round: a database is built from a DIFFERENT content (other table and
     column names, types, flags, defaults, notes, actions), rendered to SQL and DBML (whatever a renderer or a model object
